@@ -1,6 +1,7 @@
 """C20 — CopyFrom and Equals implement logical copy and equality (structural clauses)."""
 from checks.common import Ctx
 from sa.report import Check
+from sa.rules import validators as VX
 from sa.rules import backend as B
 from sa.rules import cpp_rules as C
 from sa.rules import maybe_rules as MB
@@ -30,4 +31,5 @@ def main(tier):
     chk.run("R-STORAGEIFACE", C.storageiface, cx.cpp, cx.templates, floor=12)
     chk.run("R-PARAMCOPY", B.paramcopy, cx.repo, cx.templates, floor=3)
     chk.run("R-BITCOPY", WN.bitcopy, cx.cpp, floor=4)
+    chk.run("R-SELFCONTAIN", VX.selfcontain, cx.repo, floor=3)
     return chk.finish()
